@@ -337,7 +337,8 @@ def operations(env):
         "script-reserialize": reserialize,
         "conj-partition": lambda f: list(rw.conjunctive_partition(f)),
         "disj-partition": lambda f: list(rw.disjunctive_partition(f)),
-        "propagate-toplevel": lambda f: rw.propagate_toplevel(f, env),
+        # (with a top-level definition next to the formula: that is what makes the rewriter scan it for binders)
+        "propagate-toplevel": lambda f: rw.propagate_toplevel(mgr.And(mgr.Equals(mgr.Symbol("ptl_def", pt.INT), mgr.Int(3)), f), env),
         "get_type": lambda f: env.stc.get_type(f),
     }
 
